@@ -29,7 +29,7 @@ def work(args):
     prop, base_seed, indices, cfg, baseline, known_clauses, deadline = args
     faulthandler.enable()
     out = {'runs': 0, 'ops': 0, 'stats': {}, 'states': set(), 'nontrivial': set(), 'known': {}, 'new': [],
-           'samples': [], 'errors': [], 'digests': {}, 'interleavings': set(), 'sim_steps': 0, 'skipped': 0}
+           'samples': [], 'errors': [], 'digests': {}, 'interleavings': set(), 'sim_steps': 0, 'skipped': 0, 'cover': set()}
     P = props.get(prop)
     for idx in indices:
         if deadline and time.time() > deadline:
@@ -48,6 +48,7 @@ def work(args):
     out['states'] = sorted(out['states'])
     out['nontrivial'] = sorted(out['nontrivial'])
     out['interleavings'] = sorted(out['interleavings'])
+    out['cover'] = sorted(out['cover'])
     return out
 
 
@@ -63,6 +64,7 @@ def one_run(P, prop, seed, idx, cfg, baseline, known_clauses, out):
     for k, v in main['stats'].items():
         out['stats'][k] = out['stats'].get(k, 0) + v
     out['states'].update(main.get('states', ()))
+    out['cover'].update(main.get('cover', ()))
     out['digests'][str(idx)] = main['digest']
     if main.get('interleaving'):
         out['interleavings'].add(main['interleaving'])
@@ -187,7 +189,7 @@ def run_check(prop, tier, seed=None):
         for s in range(0, n, chunk):
             tasks.append((prop, seed, list(range(s, min(n, s + chunk))), cfg, baseline, set(known_clauses), deadline))
     agg = {'runs': 0, 'ops': 0, 'stats': {}, 'states': set(), 'nontrivial': set(), 'known': {}, 'new': [],
-           'samples': [], 'errors': [], 'interleavings': set(), 'sim_steps': 0, 'skipped': 0, 'digests': {}}
+           'samples': [], 'errors': [], 'interleavings': set(), 'sim_steps': 0, 'skipped': 0, 'digests': {}, 'cover': set()}
     ctx = multiprocessing.get_context('fork')
     with cf.ProcessPoolExecutor(max_workers=NPROC, mp_context=ctx) as ex:
         futs = [ex.submit(work, t) for t in tasks]
@@ -209,7 +211,7 @@ def merge(agg, r):
         agg[k] += r[k]
     for k, v in r['stats'].items():
         agg['stats'][k] = agg['stats'].get(k, 0) + v
-    for k in ('states', 'nontrivial', 'interleavings'):
+    for k in ('states', 'nontrivial', 'interleavings', 'cover'):
         agg[k].update(r[k])
     for k, v in r['known'].items():
         agg['known'][k] = agg['known'].get(k, 0) + v
@@ -262,6 +264,8 @@ def finish(prop, tier, seed, P, agg, kf, baseline, wall, t0, extra):
             'distinct_states': len(agg['states']),
             'distinct_states_measure': 'distinct (element, child-name multiset) pairs reached on a focus element',
             'distinct_interleavings': len(agg['interleavings']),
+            'element_types_exercised': len([c for c in agg['cover'] if c.startswith('type:')]),
+            'declared_element_attribute_pairs_offered': len([c for c in agg['cover'] if c.startswith('pair:')]),
             'known_findings_hit': agg['known'],
             'new_violations': [{'clause': v['clause'], 'replay': v['replay']} for v in agg['new']][:20],
             'runs_skipped_for_wall_clock': agg['skipped'],
